@@ -478,3 +478,52 @@ pub fn t_result(a: u64, b: u64, c: u64) -> u64 {
 	let hp = Hp { keys: [a, b, c, a ^ b], mask: c | 0xff, other: "xyz".to_string() };
 	hp.node(a, b & 1).unwrap() ^ hp.ext(c)
 }
+#[derive(Clone, Copy, Debug, PartialEq)]
+pub enum Kf {
+	Plain { fee: u64 },
+	Coinbase,
+	Locked { fee: u64, lock: u64 },
+	Nrd { fee: u64, rel: u16 },
+}
+pub struct Kern {
+	pub features: Kf,
+	pub excess: String,
+}
+pub enum Wt {
+	AsTx,
+	AsLimited(u64),
+	NoLimit,
+}
+pub fn h_fee(ks: &[Kern]) -> u64 {
+	ks.iter()
+		.filter_map(|k| match k.features {
+			Kf::Coinbase => None,
+			Kf::Plain { fee } => Some(fee),
+			Kf::Locked { fee, .. } => Some(fee),
+			Kf::Nrd { fee, .. } => Some(fee),
+		})
+		.fold(0, |acc, f| acc.saturating_add(f & 0xff_ffff_ffff))
+}
+pub fn h_lock(ks: &[Kern]) -> u64 {
+	ks.iter()
+		.filter_map(|x| match x.features {
+			Kf::Locked { lock, .. } => Some(lock),
+			_ => None,
+		})
+		.max()
+		.unwrap_or(0)
+}
+pub fn h_verify(w: Wt, weight: u64, blockmax: u64) -> Result<(), String> {
+	let lim = match w {
+		Wt::AsTx => blockmax.saturating_sub(24),
+		Wt::AsLimited(m) => std::cmp::min(blockmax, m).saturating_sub(24),
+		Wt::NoLimit => {
+			// nothing to check
+			return Ok(());
+		}
+	};
+	if weight > lim {
+		return Err(String::new());
+	}
+	Ok(())
+}
